@@ -1,9 +1,8 @@
 // ===================== request side: writers, formatting wrappers, header insertion (trusted) =====================
 #[verifier::external_type_specification] #[verifier::external_body] #[verifier::accept_recursive_types(W)] pub struct ExBufWriter<W: ?Sized + Write>(BufWriter<W>);
-#[verifier::external_type_specification] #[verifier::external_body] pub struct ExVersion(Version);
 #[verifier::external_type_specification] #[verifier::external_body] pub struct ExInstant(Instant);
 
-pub open spec fn crlf2() -> Seq<u8> { seq![13u8, 10u8] }
+pub open spec fn crlf2() -> Seq<u8> { str_bytes("\r\n"@) }
 
 /// `BufWriter::new(writer)`: the bytes of this request are what is written into it until `flush`
 #[verifier::external_body]
@@ -29,9 +28,10 @@ pub fn vp_write_crlf<W: Write>(w: &mut W) -> (r: io::Result<()>)
 pub fn vp_write_name_colon<W: Write>(w: &mut W, name: &str) -> (r: io::Result<()>)
     ensures r is Ok ==> (*final(w)).sent() == (*old(w)).sent() + str_bytes(name@) + seq![58u8, 32u8],
 { write!(w, "{}: ", name) }
-pub open spec fn http11_suffix() -> Seq<u8> { seq![32u8, 72, 84, 84, 80, 47, 49, 46, 49, 13, 10] }   // " HTTP/1.1\r\n"
+pub open spec fn sp() -> Seq<u8> { str_bytes(" "@) }
+pub open spec fn http11_suffix() -> Seq<u8> { sp() + str_bytes("HTTP/1.1"@) + str_bytes("\r\n"@) }   // " HTTP/1.1\r\n" as the formatting macro emits it
 /// `Version::HTTP_11` (external associated const); `{:?}` prints "HTTP/1.1"
-#[verifier::external_body] pub fn vp_http11() -> Version { Version::HTTP_11 }
+#[verifier::external_body] pub fn vp_http11() -> (r: Version) ensures version_is_11(&r) { Version::HTTP_11 }
 /// `write!(w, "{} {} {:?}\r\n", method, target, version)` with a Url target (absolute-form) or a path (origin-form)
 #[verifier::external_body]
 pub fn vp_write_line_url<W: Write>(w: &mut W, m: &str, target: &Url, v: Version) -> (r: io::Result<()>)
@@ -246,7 +246,7 @@ pub fn vp_hm_iter_next<'a>(it: &mut http::header::Iter<'a, HeaderValue>) -> (r: 
 { it.next() }
 /// `name: value CRLF` for each entry
 pub open spec fn header_lines(s: Seq<(Seq<u8>, Seq<u8>)>) -> Seq<u8> decreases s.len() {
-    if s.len() == 0 { Seq::empty() } else { header_lines(s.drop_last()) + (s.last().0 + seq![58u8, 32u8] + s.last().1 + crlf2()) }
+    if s.len() == 0 { Seq::empty() } else { header_lines(s.drop_last()) + (s.last().0 + str_bytes(": "@) + s.last().1 + crlf2()) }
 }
 /// the header block of a request: every field of the map, then the empty line
 pub open spec fn headers_block(h: &HeaderMap) -> Seq<u8> { header_lines(hm_iter_order(h)) + crlf2() }
